@@ -987,3 +987,48 @@ func init() {
 		return ex.fmtInt(a[0].(*Term), true)
 	})
 }
+
+func init() {
+	reg("strconv.FormatFloat", func(ex *Exec, fr *Frame, site ssa.Instruction, a []Value) Value {
+		t := a[0].(*Term)
+		fm, ok1 := a[1].(*Term).BVVal()
+		prec := ex.concreteInt(a[2], "precision", site)
+		bits := ex.concreteInt(a[3], "bitSize", site)
+		if !ok1 {
+			panic(unsupported("FormatFloat symbolic format"))
+		}
+		if f, ok := t.F64Val(); ok {
+			return mkStr(strconv.FormatFloat(f, byte(fm), prec, bits))
+		}
+		if t.IntOf != nil && byte(fm) == 'f' && prec == -1 {
+			x := t.IntOf
+			if bits == 64 {
+				return ex.fmtInt(x, true) // exact: |x| <= 2^53
+			}
+			// float32: the value is first rounded to 24 significant bits. Model: a multiple y of
+			// 2^(bitlen(|x|)-24) within half a step of x (y = x when x fits in 24 bits).
+			y := ex.fresh("f32round", SInt)
+			abs := tIte(tIntCmp("<", x, mkInt(0)), tIntSub(mkInt(0), x), x)
+			cons := tImplies(tIntCmp("<=", abs, mkInt(1<<24)), tEq(y, x))
+			for k := 1; k <= 30; k++ {
+				lo, hi := int64(1)<<(23+k), int64(1)<<(24+k)
+				in := tAnd(tIntCmp(">", abs, mkInt(lo)), tIntCmp("<=", abs, mkInt(hi)))
+				step := int64(1) << k
+				mult := tEq(newTerm("mod", SInt, y, mkInt(step)), mkInt(0))
+				d := tIntSub(y, x)
+				near := tAnd(tIntCmp("<=", d, mkInt(step/2)), tIntCmp(">=", d, mkInt(-step/2)))
+				// ties go to the even multiple (round-half-even)
+				tie := tOr(tEq(d, mkInt(step/2)), tEq(d, mkInt(-step/2)))
+				even := tEq(newTerm("mod", SInt, newTerm("div", SInt, y, mkInt(step)), mkInt(2)), mkInt(0))
+				cons = tAnd(cons, tImplies(in, tAndN(mult, near, tImplies(tie, even))))
+			}
+			ex.assume(cons)
+			if x.HasRng && x.Lo >= 0 {
+				y.HasRng, y.Lo, y.Hi = true, 0, x.Hi+x.Hi/2+1
+			}
+			return ex.fmtInt(y, true)
+		}
+		s := ex.fresh("fmtfloat", SStr)
+		return s
+	})
+}
